@@ -24,6 +24,9 @@ type vfVecOp struct {
 	Code  []int `json:"code,omitempty"`
 	List  int   `json:"list,omitempty"`
 	ThrOf int   `json:"thr_of_rank,omitempty"`
+	// add (trainable kinds): 1 + index of the training vector whose VERY SLICE (the one that was
+	// handed to Train) is handed to Add; 0 = a private copy, as usual
+	TrainRef int `json:"train_ref,omitempty"`
 }
 
 type vfC01Case struct {
@@ -155,6 +158,21 @@ func vfC01Gen(rt *rapid.T) vfC01Case {
 			}
 			return vfVecOp{Op: "remove", ID: id, Vec: vfGenRemovePayload(rt, g)}
 		case w < 68:
+			if len(live) >= 3 && rapid.IntRange(0, 2).Draw(rt, "purge") == 0 {
+				// several removals at once, then a flush: the compaction sees many tombstones
+				op := vfVecOp{Op: "purge"}
+				var keep []uint32
+				for _, id := range live {
+					if rapid.Bool().Draw(rt, "purge_this") {
+						op.IDs = append(op.IDs, id)
+						removed = append(removed, id)
+					} else {
+						keep = append(keep, id)
+					}
+				}
+				live = keep
+				return op
+			}
 			return vfVecOp{Op: "flush"}
 		case w < 71:
 			// failing search: wrong dimension or zero query under cosine
@@ -250,6 +268,21 @@ func vfC01Run(c vfC01Case, ctx *vfCtx) *vfViolation {
 	ctx.Class("metric=" + c.Metric)
 	sawRemove, sawFlushAfterRemove := false, false
 	for i, op := range c.Ops {
+		if op.Op == "purge" {
+			for _, id := range op.IDs {
+				if _, isLive := m.live[id]; !isLive {
+					continue
+				}
+				if err := idx.Remove(*NewVectorNodeWithID(id, nil)); err != nil {
+					return vfFail("op %d: Remove(%d) of a live vector failed: %v", i, id, err)
+				}
+				delete(m.live, id)
+				m.resident[id] = true
+					sawRemove = true
+			}
+			ctx.Class("purge(several removals, then flush)")
+			op.Op = "flush"
+		}
 		switch op.Op {
 		case "add":
 			if kind == Cosine && vfIsZero(op.Vec) || len(op.Vec) != c.Dim {
